@@ -23,7 +23,8 @@ RULE = ('Hypothesis draws a class model with Any/untyped/_yatiml_extra '
         'valid or mutated document with tags (registered class names incl. '
         'the trap, unknown names, !!python/object, /apply, /new, /name, '
         '/module, core-schema tags) injected at 1-5 random nodes (values, '
-        'keys, items); a case is non-trivial when the document composes and '
+        'keys, items), optionally with 1-3 anchor/alias pairs that make one '
+        'node appear at positions of different declared types; a case is non-trivial when the document composes and '
         'carries at least one injected non-core or !!python/* tag, or a '
         'registered-class tag; distinct = distinct (model, text)')
 ASSUMPTIONS = [
@@ -39,14 +40,65 @@ FEATS = ('hier', 'abstract', 'unreg', 'extra', 'enum', 'strlike', 'any',
          'opt_any', 'seasoned')
 
 
+def leaf_sites(v, spec, path=()):
+    """(tree path, leaf value spec) for every scalar leaf that is a value (not a
+    key) in the projection of a value spec."""
+    k = v[0]
+    if k == 'obj':
+        if gen.classes_by_name(spec)[v[1]].get('index'):
+            return
+        for i, (n, x) in enumerate(v[2]):
+            yield from leaf_sites(x, spec, path + (1, i, 1))
+        for j, (a, b) in enumerate(v[3] or []):
+            yield from leaf_sites(b, spec, path + (1, len(v[2]) + j, 1))
+    elif k == 'list':
+        for i, x in enumerate(v[1]):
+            yield from leaf_sites(x, spec, path + (1, i))
+    elif k in ('dict', 'odict'):
+        for i, (a, b) in enumerate(v[1]):
+            yield from leaf_sites(b, spec, path + (1, i, 1))
+    else:
+        yield path, v
+
+
+def alias_typed(draw, spec):
+    """A valid document in which a plain string value and an enum / string-like /
+    path value are one anchored scalar referenced twice."""
+    v = draw(gen.vspec_for(spec, spec['doc_type'], hard=False, omit_defaults=False))
+    if v is None:
+        return None
+    leaves = list(leaf_sites(v, spec))
+    typed = [(p, x) for p, x in leaves if x[0] in ('enum', 'strlike', 'path')]
+    plain = [(p, x) for p, x in leaves if x[0] == 'str']
+    if not typed or not plain:
+        return None
+    (pt_, tv), (pp, _) = draw(st.sampled_from(typed)), draw(st.sampled_from(plain))
+    t = gen.project(v, spec)
+    node = T.get_at(t, pt_)
+    first, second = sorted([pt_, pp])
+    t = T.set_at(t, second, ['*', 'sh'])
+    t = T.set_at(t, first, ['&', 'sh', node])
+    return t
+
+
 @st.composite
 def cases(draw):
     spec = draw(gen.models(FEATS))
+    if draw(st.integers(0, 5)) == 0:
+        t = alias_typed(draw, spec)
+        if t is not None:
+            return {'model': spec, 'text': T.render_flow(t), 'src': 'value+alias_typed'}
     t, origin = draw(gen.doc_for(spec, tags=False, hard=False,
                                  mutations=draw(st.booleans())))
     n = draw(st.sampled_from([1, 1, 2, 3, 5]))
     t, ops = draw(gen.mutate(spec, t, n=n, kinds=['tag']))
-    return {'model': spec, 'text': T.render_flow(t), 'src': origin.split(':')[0]}
+    src = origin.split(':')[0]
+    if draw(st.integers(0, 3)) == 0:
+        # anchors/aliases: one node referenced from positions of different types
+        t, info = draw(gen.share(t))
+        if info:
+            src += '+alias'
+    return {'model': spec, 'text': T.render_flow(t), 'src': src}
 
 
 def check(case, ctx):
@@ -64,6 +116,8 @@ def check(case, ctx):
     except Exception as e:
         outcome = 'raised'
     ctx.count(outcome)
+    if '+alias' in case.get('src', ''):
+        ctx.count('with_alias')
     if 'yv_canary' in sys.modules:
         called = list(sys.modules['yv_canary'].CALLED)
         sys.modules.pop('yv_canary', None)
